@@ -87,7 +87,7 @@ QUICK = dict(cases=800, workers=2, timecap=45)
 THOROUGH = dict(cases=40000, workers=16, timecap=600)
 REQUIRED = {"quad_xsec": 60, "quad_volume": 4, "quad_uniform": 8, "tiling_lists": 30, "bins": 2000, "sum": 40,
             "sum_unity": 20, "density": 300, "hist_steps": 300, "hist_energy_density": 1000, "hist_geometry": 100,
-            "hist_psd": 1000, "reported": 1500, "width": 60, "formula": 2000, "construct_paths": 300, "shape": 3000, "placement": 400, "same_arg": 3000}
+            "hist_psd": 1000, "reported": 1500, "width": 60, "formula": 2000, "construct_paths": 300, "shape": 3000, "placement": 400, "same_arg": 3000, "rejected": 60}
 
 C_LIGHT = 299792458.0      # m/s, exact by SI definition (own constant, not imported from cherab)
 PROFILES = ("UniformEnergyDensity", "ConstantBivariateGaussian", "TrivariateGaussian", "GaussianBeamAxisymmetric")
@@ -362,6 +362,10 @@ def _gen_history(rng, tier="quick"):
             if n == "reassign_same":
                 ops.append([n, None])                      # laser.laser_profile = laser.laser_profile
                 continue
+            if rng.random() < 0.12:                        # an assignment the setter has to refuse
+                ks = _invalid_kinds(n)
+                ops.append([n, {"invalid": ks[int(rng.integers(len(ks)))]}])
+                continue
             if u < 0.15:
                 v = P[n]                                   # no-op assignment: the value the attribute already has
             elif u < 0.3 and n in before:
@@ -389,6 +393,10 @@ def _gen_history(rng, tier="quick"):
     for _ in range(nops):
         n = names[int(rng.integers(len(names)))]
         u = rng.random()
+        if rng.random() < 0.12:                            # an assignment the setter has to refuse
+            ks = _invalid_kinds(n)
+            ops.append([n, {"invalid": ks[int(rng.integers(len(ks)))]}])
+            continue
         if u < 0.15:
             v = S[n]                                       # no-op assignment
         elif u < 0.3 and n in before and (n != "min_wavelength" or before[n] < S["max_wavelength"]) \
@@ -521,6 +529,13 @@ def fixed_cases(tier):
         out.append(dict(kind="history", cls=cls, init=inits[cls], attach=True, via="direct",
                         ops=[["laser_length", inits[cls]["laser_length"] * 1.004], ["reassign_same", None],
                              ["laser_length", inits[cls]["laser_length"] * 0.997], ["laser_radius", inits[cls]["laser_radius"] * 1.001]]))
+    for cls in PROFILES:
+        other = "energy_density" if cls == "UniformEnergyDensity" else "pulse_energy"
+        for n in list(PROFILE_PARAMS[cls]) + ["polarization"]:
+            for k in _invalid_kinds(n)[:2]:
+                o2 = "laser_length" if n == other else other
+                out.append(dict(kind="history", cls=cls, init=inits[cls], attach=True, via="direct",
+                                ops=[[n, {"invalid": k}], [o2, new[o2]], [n, new[n]], [n, {"invalid": k}], [n, inits[cls][n]]]))
     SC = dict(min_wavelength=1059.0, max_wavelength=1069.0, bins=20)
     SG = dict(SC, mean=1064.0, stddev=0.8)
     for n, v in (("min_wavelength", 1061.5), ("max_wavelength", 1066.25), ("bins", 7)):
@@ -533,6 +548,13 @@ def fixed_cases(tier):
         out.append(dict(kind="history", cls="GaussianSpectrum", init=SG, attach=False, ops=[[n, SG[n]], [n, v], [n, SG[n]]]))
         if n in SC:
             out.append(dict(kind="history", cls="ConstantSpectrum", init=SC, attach=False, ops=[[n, SC[n]], [n, v], [n, SC[n]]]))
+        for k in _invalid_kinds(n):
+            if k in ("zero", "negative", "not-below-max", "not-above-min", "fraction"):
+                out.append(dict(kind="history", cls="GaussianSpectrum", init=SG, attach=False,
+                                ops=[[n, {"invalid": k}], ["bins", 9], [n, v], [n, {"invalid": k}], ["stddev", 1.1]]))
+                if n in SC:
+                    out.append(dict(kind="history", cls="ConstantSpectrum", init=SC, attach=False,
+                                    ops=[[n, {"invalid": k}], ["bins", 9], [n, v]]))
     # spectra: documented example, suite example, one bin, ranges known to lose an edge by rounding
     for mn, mx, b in ((1063.9, 1064.1, 1), (1039.9, 1040.1, 10), (1059.0, 1069.0, 20), (400.0, 400.7, 3), (300.7, 300.9, 1), (512.1, 512.4, 2),
                       (1063.9, 1064.1, 7), (532.0, 532.3, 49), (694.3, 694.301, 500)):
@@ -1273,7 +1295,7 @@ def _diff(ctx, live, fresh):
     return out
 
 
-def _reported(ctx, obj, M, cls, seen):
+def _reported(ctx, obj, M, cls, seen, rejected=None):
     """every reported accessor against the value that was set (the parameters a fresh object would be built from)"""
     if cls in SPECTRA:
         d = (M["max_wavelength"] - M["min_wavelength"]) / M["bins"]
@@ -1295,7 +1317,8 @@ def _reported(ctx, obj, M, cls, seen):
             ok = not bad.any()
         if not ok and "wavelengths" not in seen:
             seen.add("wavelengths")
-            ctx.viol("reported:%s.wavelengths:not-bin-centres-of-set-range" % _defcls(obj, "wavelengths"),
+            ctx.viol(("rejected:%s.%s:reported-parameter-changed:wavelengths" % rejected) if rejected else
+                     "reported:%s.wavelengths:not-bin-centres-of-set-range" % _defcls(obj, "wavelengths"),
                      "wavelengths are not min + (i + 1/2) (max - min) / bins of the parameters that were set")
     else:
         exp = [(n, getattr(obj, n), M[n], 0.0) for n in PROFILE_PARAMS[cls]]
@@ -1313,7 +1336,8 @@ def _reported(ctx, obj, M, cls, seen):
         if bad.any() and name not in seen:
             seen.add(name)
             base = name.split(".")[0]
-            ctx.viol("reported:%s.%s:differs-from-set-value" % (_defcls(obj, base), name),
+            ctx.viol(("rejected:%s.%s:reported-parameter-changed:" % rejected + name) if rejected else
+                     "reported:%s.%s:differs-from-set-value" % (_defcls(obj, base), name),
                      "a reported parameter differs from the value the object was given", accessor=name, got=float(got),
                      want=float(want))
 
@@ -1352,6 +1376,47 @@ def _same_arg_eval(obj, cls, probes, reverse=False, M=None):
     return out
 
 
+INVALID_KINDS = {
+    "positive": ("zero", "negative", "nan", "inf", "str", "none"),
+    "real": ("nan", "inf", "str", "none"),
+    "bins": ("zero", "negative", "fraction", "str", "none"),
+    "polarization": ("zero-vector", "str"),      # not None: Cython lets None through a typed Vector3D argument (crash, not a refusal)
+}
+
+
+def _invalid_kinds(name):
+    if name in ("mean_z", "waist_z"):
+        return INVALID_KINDS["real"]
+    if name in ("bins", "polarization"):
+        return INVALID_KINDS[name]
+    extra = ("not-below-max",) if name == "min_wavelength" else (("not-above-min",) if name == "max_wavelength" else ())
+    return INVALID_KINDS["positive"] + extra
+
+
+def _invalid_value(name, kind, M):
+    if kind == "zero":
+        return 0 if name == "bins" else 0.0
+    if kind == "negative":
+        return -3 if name == "bins" else -(abs(M[name]) or 1.0)
+    if kind == "nan":
+        return float("nan")
+    if kind == "inf":
+        return float("inf")
+    if kind == "fraction":
+        return 2.5
+    if kind == "str":
+        return "abc"
+    if kind == "none":
+        return None
+    if kind == "not-below-max":
+        return M["max_wavelength"]
+    if kind == "not-above-min":
+        return M["min_wavelength"]
+    if kind == "zero-vector":
+        return [0.0, 0.0, 0.0]
+    raise KeyError(kind)
+
+
 def _run_history(case, ctx):
     """live object driven by the setter history; after construction and after every setter it is compared with
     D = an object constructed directly from the modelled parameters (all keywords, or default-valued ones omitted) and
@@ -1374,28 +1439,72 @@ def _run_history(case, ctx):
     seen = set()
     prev = set()
     kinds = set()
+    rejected_before = []
     for step, (name, value) in enumerate([(None, None)] + [tuple(o) for o in ops]):
         setter = None
+        rejected_now = None
         if name is not None:
             # apply to the live object through the public API, and to the model
-            was_noop = bool(name != "reassign_same" and value == M[name])
-            kinds.add("noop" if was_noop else "change")
+            invalid = value["invalid"] if isinstance(value, dict) else None
+            if invalid is not None:
+                value = _invalid_value(name, invalid, M)
+            was_noop = bool(invalid is None and name != "reassign_same" and value == M[name])
+            kinds.add("rejected" if invalid else ("noop" if was_noop else "change"))
             # "same argument again right after a state change": the observables are asked at a few arguments right
             # before the setter, and the FIRST calls after it repeat exactly those arguments, last one first
             probes = _same_arg_probes(cls, M)
             _same_arg_eval(live, cls, probes)
-            if name == "reassign_same":
-                if laser is not None:
-                    laser.laser_profile = laser.laser_profile
-                setter = "reassign_same"
-            elif name == "polarization":
-                live.set_polarization(Vector3D(*value))
-                setter = "set_polarization"
-            else:
-                setattr(live, name, value)
-                setter = name
+            setter = "set_polarization" if name == "polarization" else name
+            raised = None
+            try:
+                if name == "reassign_same":
+                    if laser is not None:
+                        laser.laser_profile = laser.laser_profile
+                elif name == "polarization":
+                    live.set_polarization(Vector3D(*value) if isinstance(value, list) else value)
+                else:
+                    setattr(live, name, value)
+            except Exception as e:  # noqa  (judged below: allowed only for a value outside the parameter's domain)
+                raised = e
+            who = (_defcls(live, setter), setter)
+            if invalid is None and raised is not None:
+                # a legal assignment must work (as it would on a freshly constructed object)
+                if rejected_before:
+                    ctx.viol("rejected:%s.%s:later-legal-setter-raises" % rejected_before[-1],
+                             "after an assignment was rejected, a later legal assignment raises although the same "
+                             "assignment works on a freshly constructed object",
+                             rejected=["%s.%s" % r for r in rejected_before], legal_setter="%s.%s" % who, value=value,
+                             exception="%s: %s" % (type(raised).__name__, str(raised)[:200]))
+                else:
+                    ctx.viol("history:%s.%s:legal-assignment-raises:%s" % (who + (type(raised).__name__,)),
+                             "a legal parameter assignment raises", value=value, exception=str(raised)[:200])
+                ctx.mon("legal_setter_raised")
+                break
+            if invalid is not None:
+                ctx.cls("rejected-kind:" + invalid)
+                if raised is None:
+                    # the statement does not say which values a setter must refuse: an accepted out-of-domain value
+                    # ends the history unjudged
+                    ctx.skip("out-of-domain-value-accepted:%s.%s:%s" % (who + (invalid,)))
+                    break
+                # a refusal is judged only if no object can be constructed with that value either (then the pre-assignment
+                # state is the only consistent one); a value the constructor takes (NaN, inf: no setter refuses those) is in
+                # the class's accepted domain and the exception came from a side effect -> unjudged
+                try:
+                    trial = dict(M)
+                    trial[name] = value
+                    _mk_profile(cls, trial) if is_prof else _mk_spectrum(cls, trial)
+                    constructible = True
+                except Exception:  # noqa
+                    constructible = False
+                if constructible:
+                    ctx.skip("refused-value-is-constructible:%s.%s:%s" % (who + (invalid,)))
+                    break
+                ctx.mon("rejected")
+                rejected_now = who
+                rejected_before.append(who)
             same_arg_live = _same_arg_eval(live, cls, probes, reverse=True)
-            if name != "reassign_same":
+            if name != "reassign_same" and invalid is None:
                 M[name] = value
         if laser is not None:
             _judge_placement(ctx, laser, M["laser_radius"], M["laser_length"], setter or "attach")
@@ -1424,7 +1533,8 @@ def _run_history(case, ctx):
                 if (bad is None or bad.any()) and ("same_arg", obs) not in seen:
                     seen.add(("same_arg", obs))
                     i = 0 if bad is None else int(np.argmax(bad))
-                    ctx.viol("history:%s.%s:stale:%s:same-argument-first-call" % (_defcls(live, setter), setter, obs),
+                    ctx.viol((("rejected:%s.%s:state-changed:" % rejected_now) if rejected_now else
+                              "history:%s.%s:stale:" % (_defcls(live, setter), setter)) + obs + ":same-argument-first-call",
                              "asked for the same argument right before and as the first call right after this setter, the live "
                              "object's %s differs from that of an object constructed directly with the final parameters" % obs,
                              setter=setter, observable=obs, index=i, live=None if bad is None else float(g[i]),
@@ -1444,12 +1554,13 @@ def _run_history(case, ctx):
         stale = set(m_ld) & set(m_ls)
         if setter is not None:
             for obs in sorted(stale - prev):
-                ctx.viol("history:%s.%s:stale:%s" % (_defcls(live, setter), setter, obs),
+                ctx.viol((("rejected:%s.%s:state-changed:" % rejected_now) if rejected_now else
+                          "history:%s.%s:stale:" % (_defcls(live, setter), setter)) + obs,
                          "after this setter the live object's %s differs from freshly built objects'" % obs,
                          setter=setter, observable=obs, noop_assignment=was_noop,
                          **m_ld[obs])
         prev = stale
-        _reported(ctx, live, M, cls, seen)
+        _reported(ctx, live, M, cls, seen, rejected=rejected_now)
         if step == 0:
             _reported(ctx, objs[1], M, cls, seen)
     for k in kinds:
